@@ -1086,7 +1086,7 @@ class CacheSeqEngine(CacheEngineBase):
 class CacheConcEngine(CacheEngineBase):
     prop = "C16"
     name = "cachesim-conc"
-    tiers = {"quick": 6000, "thorough": 400000}
+    tiers = {"quick": 8000, "thorough": 400000}
     chunks = {"quick": 20, "thorough": 250}
     rule = ("each case is one simulated run: a drawn prior cache state (empty, or left by a fault-free process that defined another "
             "declaration list, with or without bytecode), then 2-3 simulated processes executing defs.py (1-3 same-named "
